@@ -189,7 +189,7 @@ def make_trapezoid(
             if rise_time is None:
                 raise ValueError('Must supply `rise_time` when `area` and `flat_time` is provided.')
 
-            amplitude2 = area / (rise_time + flat_time)
+            amplitude2 = area / (rise_time / 2 + fall_time / 2 + flat_time)
 
         else:
             if rise_time is not None or fall_time is not None:
